@@ -43,6 +43,8 @@ def run(run, model):
     run.do(rec.chain_and_lazy_compare, model, "C16.reeval-chain", "C16.reeval-chain-once")
     from . import msg
     run.do(msg.reeval_once, model)
+    # the snapshot phase is there whenever postconditions and snapshots are
+    run.do(gates.c08_place, model, "C16.snapshot-phase")
     run.minimum("C16.phases", 2)
     run.minimum("C16.inv-phases", 2)
     run.minimum("C16.append", 3)
